@@ -612,7 +612,7 @@ func init() {
 		g := &pgen{r: r, noLayout: true}
 		for i := 0; i < n; i++ {
 			fields := []string{hx(g.program(1 + r.intn(3)))}
-			for _, k := range []string{"p1", "p2", "a", "true", "x", "Kind", "k", "user id"} {
+			for _, k := range []string{"p1", "p2", "a", "true", "x", "Kind", "k", "user id", " a", "a ", "\tk", "P1", ""} {
 				if r.chance(1, 2) {
 					fields = append(fields, hx(k), hx(pick(r, []string{"{p:String}", "$1", "?", "42", "'lit'", "-5", "1 + 2", "(1 + 2)", "\"col\"", "NULL", ""})))
 				}
@@ -705,6 +705,23 @@ func init() {
 					st = g.letStmt(1)
 				case 2:
 					st = "let " + pick(r, []string{"x = a", "= 1", "y", "z = (", "w = 'unterminated"})
+				case 6:
+					// a history of lets over a small pool of names: values use earlier names, names are
+					// redefined after other lets captured them, a query uses all of them
+					pool := []string{"lo", "hi", "n", "x"}
+					var hs []string
+					var defined []string
+					for h := 0; h < 2+r.intn(4); h++ {
+						nm := pick(r, pool)
+						val := pick(r, []string{"1", "10", "100", "'s'", "-5"})
+						if len(defined) > 0 && r.chance(2, 3) {
+							val = pick(r, defined) + pick(r, []string{" + 10", "", " * 2", " + " + pick(r, defined)})
+						}
+						hs = append(hs, "let "+nm+" = "+val)
+						defined = append(defined, nm)
+					}
+					hs = append(hs, "T | where a == "+pick(r, defined)+" and b == "+pick(r, defined)+" | take "+pick(r, defined))
+					st = strings.Join(hs, pick(r, []string{"; ", ";\n", ";\n\n"}))
 				case 3:
 					st = pick(r, []string{"T | where (", "T | bogus", "T | where $left.a", "T | take 1.5", "| count", "T | where iff(1)", "let", "T T", "'"})
 				case 4:
